@@ -495,6 +495,14 @@ def _run_history(ctx, lib, h, msg, comp, use_cpp):
         out.append(W.decrypt(ct, msk=ex.msk))
         pre = W.precompute(ex.params, attrs)
         out.append(W.blob_bytes(pre, 5))
+        # the precomputed entry points as well (encrypt_precomputed; sign / verify through a precomputed value follow below)
+        lib.set_random(b"c19p", 23)
+        ct2 = W.encrypt(gt, ex.params, pre=pre)
+        out.append(W.blob_bytes(ct2, 3))
+        out.append(W.decrypt(ct2, sk=k["h"]))
+        lib.set_random(b"c19s", 29)
+        sig2 = W.sign(ex.params, k["h"], attrs, msg, pre=pre)
+        out.append(W.blob_bytes(sig2, 4))
         sig = W.sign(ex.params, k["h"], attrs, msg)
         out.append(W.blob_bytes(sig, 4))
         out.append(bytes([1 if W.verify(ex.params, attrs, sig, msg) else 0, 1 if W.verify(ex.params, None, sig, msg, pre=pre) else 0,
@@ -519,7 +527,7 @@ def check_scheme(ctx, lib, c):
     t1 = _run_history(ctx, lib, c["h"], c["msg"], c["comp"], False)
     t2 = _run_history(ctx, lib, c["h"], c["msg"], c["comp"], True)
     expect(len(t1) == len(t2), "capi-vs-cpp/wkdibe/transcript-length", "transcripts differ in length")
-    names = ["params", "masterkey"] + ["key%d" % i for i in range(len(t1) - 10)] + ["ciphertext", "decrypt", "decrypt_master", "precomputed", "signature", "verdicts", "unmarshal"]
+    names = ["params", "masterkey"] + ["key%d" % i for i in range(len(t1) - 13)] + ["ciphertext", "decrypt", "decrypt_master", "precomputed", "ciphertext_precomputed", "decrypt_precomputed", "signature_precomputed", "signature", "verdicts", "unmarshal"]
     for i, (a, b) in enumerate(zip(t1, t2)):
         expect(a == b, "capi-vs-cpp/wkdibe/%s" % (names[i] if i < len(names) else str(i)).rstrip("0123456789"), lambda: "C and C++ results differ at transcript item %d (%s)" % (i, names[i] if i < len(names) else "?"))
     # LQ-IBE
